@@ -10,6 +10,7 @@
 (*            (times * 8), rows (states+controls, ints), jn, jd (J as a    *)
 (*            fraction), tn, td, diffs: <<<<[n, d]>>>>]                    *)
 (*  "multi": [ntest, ntrain, calls, log]  (multi_run_ode + ResultsLog)     *)
+(*  "describe": [ntest, ntrain, header_ok, nlines, rows_ok]                *)
 (***************************************************************************)
 EXTENDS F64, Dyadic, TraceIO, Sequences, FiniteSets
 VARIABLE tid
@@ -103,8 +104,14 @@ Multi(c) ==
    \cup (IF \E i \in 1..k : c.calls[i].same_ode = 1 /\ c.calls[i].same_t # 1 THEN {"multi-run:time-not-of-that-simulation"} ELSE {}))
   \cup (IF c.log.header_ok # 1 \/ c.log.nlines # Len(c.calls) + 1 THEN {"results-log:header-once-then-one-line-per-run"} ELSE {})
   \cup (IF \E i \in 1..Len(c.log.rows_ok) : c.log.rows_ok[i] # 1 THEN {"results-log:line-not-the-values-of-its-run"} ELSE {})
+\* System.describe_system: the results table it writes holds one line per starting state - test states first - with
+\* the values of that state's simulation under the budget (steps, time) of ITS group
+Describe(c) ==
+  (IF c.header_ok # 1 \/ c.nlines # c.ntest + c.ntrain + 1 THEN {"describe-system:header-once-then-one-line-per-run"} ELSE {})
+  \cup (IF \E i \in 1..Len(c.rows_ok) : c.rows_ok[i] # 1
+        THEN {"describe-system:line-not-the-values-of-its-run-under-its-group-budget"} ELSE {})
 Verdict(c) == IF c.kind = "run" THEN Run(c) ELSE IF c.kind = "merit" THEN Merit(c)
-              ELSE IF c.kind = "multi" THEN Multi(c) ELSE JReal(c)
+              ELSE IF c.kind = "multi" THEN Multi(c) ELSE IF c.kind = "describe" THEN Describe(c) ELSE JReal(c)
 Init == tid = 0
 Next == /\ tid < NCases /\ tid' = tid + 1
         /\ PrintT(<<"V", Cases[tid'].id, Verdict(Cases[tid'])>>)
